@@ -211,6 +211,8 @@ def to_erg(prog, untyped=()):
             lines.append(p + ("(%s) = %s" if a[0] == 0 else "[%s] = %s") % (ids, p_expr(a[2], names)))
         elif t == G.S_PCALL:
             lines.append(p + "%s(%s)" % (names(a[0]), ", ".join(p_expr(x, names) for x in a[1])))
+        elif t == G.S_NPAT:
+            lines.append(p + "%s = %s" % (G.erg_pat(a[0], names), p_expr(a[1], names)))
         else:
             raise ValueError(t)
     blk(prog, 0)
@@ -285,6 +287,8 @@ def all_ids(prog):
             ids.add(a[0])
         if t == G.S_PAT:
             ids.update(a[1])
+        if t == G.S_NPAT:
+            ids.update(G.pat_ids(a[0]))
         if t == G.S_FUN:
             ids.update(p[0] for p in a[2])
         if t == G.S_LAM:
@@ -527,7 +531,7 @@ def fix_block_ends(prog):
             if s.tag == G.S_EXPR and not (in_fun and k == len(ss) - 1):
                 ss[k] = S(G.S_PRINT, [[s.args[0]]]) if not in_fun else S(G.S_ASSERT, [s.args[0]])
             k += 1
-        if not top and (not ss or ss[-1].tag in (G.S_DEF, G.S_MUTDEF, G.S_FUN, G.S_LAM, G.S_PAT)):
+        if not top and (not ss or ss[-1].tag in (G.S_DEF, G.S_MUTDEF, G.S_FUN, G.S_LAM, G.S_PAT, G.S_NPAT)):
             ss.append(S(G.S_EXPR, [E(G.E_LIT, [G.L_NAT, 0], G.NAT)]) if in_fun else S(G.S_PRINT, [[E(G.E_LIT, [G.L_NAT, 0], G.NAT)]]))
         for s in ss:
             # statement-level condition / iterable whose text would begin with `(` (`if! (a) and b:` is a call of if!)
